@@ -250,6 +250,15 @@ def generate(w, sub, tla, cfg, outfile, num=None, depth=None, seed=None, timeout
                 f.write(body + "\n")
                 n += 1
     log("[gen] %s: %d distinct behaviours (%s) in %.1fs" % (tla, n, "exhaustive" if exhaustive else "simulate num=%s depth=%s" % (num, depth), dt))
+    if n == 0 and not exhaustive and not getattr(w, "_gen_retry", False):
+        # a random walk that picks a disabled branch ends early and prints nothing; with few walks all may end that way:
+        # one retry with five times as many walks and another seed before giving up
+        w._gen_retry = True
+        try:
+            return generate(w, sub, tla, cfg if not consts else cfg[len("gen_"):], outfile, num=num * 5, depth=depth, seed=(seed if seed is not None else w.seed) + 7919,
+                            timeout=timeout, consts=consts, limit=limit or num)
+        finally:
+            w._gen_retry = False
     if n == 0:
         raise Inconclusive("no behaviours generated by %s" % tla)
     return n
